@@ -49,17 +49,23 @@ def canon_sets(text, sample):
     return out, tags
 
 
-def check_roundtrip(text, out_path, trace, only_snvs, counters, doc, targets=None):
-    """Trace of the writer vs. decoders vs. whatshap's reader."""
+def check_roundtrip(text, out_path, trace, only_snvs, counters, doc, targets=None, earlier_written=None, return_written=None):
+    """Trace of the writer vs. decoders vs. whatshap's reader. earlier_written: what earlier runs of a history wrote on
+    chromosomes this run did not process (they must still be there); return_written: dict that receives this run's writes."""
     viol = []
     meta, samples, recs = vcftext.parse(text)
     si = {s: k for k, s in enumerate(samples)}
-    written = {}
+    written = dict(earlier_written or {})
+    for w in trace["vcf_writes"]:
+        for key in [k for k in written if k[1] == w["chromosome"] and k[0] in w["samples"]]:
+            del written[key]
     for w in trace["vcf_writes"]:
         for s in w["samples"]:
             for pos, al in w["phases"][s].items():
                 if pos in w["components"][s] and al[0] in (0, 1) and al[1] in (0, 1):
                     written[(s, w["chromosome"], pos + 1)] = (w["components"][s][pos] + 1, (str(al[0]), str(al[1])))
+    if return_written is not None:
+        return_written.update(written)
     # the samples the run was asked to phase, whether or not the writer was handed anything for them
     targets = set(targets) if targets is not None else {s for w in trace["vcf_writes"] for s in w["samples"]}
     seen_pos = set()
@@ -237,7 +243,8 @@ def stratum_history(rng, tmp, counters):
     start_prephase = rng.choice([None, None, "PS", "HP"])
     if start_prephase:
         # the history starts from a file phased by "another tool": phase also on multi-ALT / duplicate records
-        gvcf.hostilize(rng, sim.doc, prephase=start_prephase, allow_missing=False)
+        # (with several samples also missing / partial genotypes: a sample without genotype next to one that carries old phase)
+        gvcf.hostilize(rng, sim.doc, prephase=start_prephase, allow_missing=nsamp > 1)
         sim.doc.write(sim.vcf)
     steps = []
     n = rng.randint(2, 4)
@@ -295,6 +302,42 @@ def stratum_history(rng, tmp, counters):
     return viol, len(set(tags)) >= 2, desc
 
 
+def stratum_chrom_tags(rng, tmp, counters):
+    """One file phased chromosome by chromosome with different tags (phase --chromosome A --tag T1, then --chromosome B
+    --tag T2 on the result): the phase written by the first run must still decode after the second."""
+    nsamp = rng.choice([1, 2])
+    p = {"n_chrom": rng.choice([2, 3]), "chrom_len": 2000, "n_var": rng.randint(5, 12), "kinds": ["snv"], "samples": ["sample%s" % c for c in "AB"[:nsamp]],
+         "depth": 6, "read_len": (150, 600), "end_policy": "clean", "error_rate": 0.0, "het_prob": 0.85}
+    sim = genome.simulate(rng, tmp, p)
+    order = list(sim.chroms)
+    rng.shuffle(order)
+    tags = [rng.choice(["PS", "HP"])]
+    for _ in order[1:]:
+        tags.append("HP" if tags[-1] == "PS" else rng.choice(["PS", "HP", "PS"]))
+    desc = {"stratum": "chromosome-by-chromosome", "order": order, "tags": tags, "params": p}
+    cur = sim.vcf
+    written = {}
+    viol = []
+    for k, (chrom, tag) in enumerate(zip(order, tags)):
+        out = os.path.join(tmp, "cstep%d.vcf" % k)
+        status, trace, msg = pipeline.run_phase(sim, out, reference=False, tag=tag, chromosomes=[chrom], variant_file=cur)
+        if status != "ok":
+            viol.append(pipeline.crash_violation(msg) if status == "crash" else {"mech": "history-refused", "msg": "step %d: %s" % (k, msg[:200])})
+            break
+        counters["history_steps_checked"] = counters.get("history_steps_checked", 0) + 1
+        counters["chromosome_steps_checked"] = counters.get("chromosome_steps_checked", 0) + 1
+        now = {}
+        vs = check_roundtrip(open(out).read(), out, trace, False, counters, sim.doc, targets=p["samples"], earlier_written=written, return_written=now)
+        for v in vs:
+            v["msg"] = "[chromosomes %r with tags %r, step %d] %s" % (order, tags, k, v["msg"])
+            if v["mech"] in ("written-phase-lost", "reader-differs-from-written") and k > 0:
+                v["mech"] += ":earlier-chromosome-other-tag"
+        viol += vs
+        written = now
+        cur = out
+    return viol, len(set(tags)) >= 2, desc
+
+
 def run_case(idx, rng, tier, lane):
     counters = {}
     keys = set()
@@ -303,7 +346,7 @@ def run_case(idx, rng, tier, lane):
     for j in range(6):
         tmp = tempfile.mkdtemp(prefix="c09-", dir=os.environ.get("WV_SCRATCH"))
         try:
-            fn = [stratum_pair, stratum_vcf_input, stratum_history][(idx + j) % 3]
+            fn = [stratum_pair, stratum_vcf_input, stratum_history, stratum_chrom_tags][(idx + j) % 4]
             v, nt, desc = fn(rng, tmp, counters)
         finally:
             shutil.rmtree(tmp, ignore_errors=True)
